@@ -9,6 +9,8 @@ expr:  ("new",)                      qubit()
        ("tup", [e, e])               tuple display
        ("call", fname, [e...])       call of a function of SIGS
        ("lit", text, ty)             classical literal / expression text (copyable)
+       ("ifx", cond, e1, e2)         conditional expression `e1 if cond else e2` (the builder stores its
+                                     value in a compiler temporary `%tmpN` assigned in both arms)
 stmt:  ("assign", [(name, ty)...], e)    one target -> `a = e`, several -> `a, b = e`
        ("expr", e) ("return", e|None) ("if", cond, then, else) ("while", cond, body)
        ("break",) ("continue",) ("pass",)
@@ -112,6 +114,8 @@ def r_expr(e):
         return e[1]
     if k == "true":
         return "True"
+    if k == "ifx":
+        return f"({r_expr(e[2])} if {r_expr(e[1])} else {r_expr(e[3])})"
     raise ValueError(e)
 
 
@@ -213,9 +217,35 @@ class Gen:
               and (n not in in_loop_pre or in_loop_pre[n] == ty)]
         return self.r.choice(ok) if ok else None
 
+    def cond_value(self, env, full, depth=0):
+        """a conditional expression of qubit type; usually both arms consume the same place (or
+        nothing), so that the expression is fine on both paths"""
+        bs = [n for n, t in env.items() if t == "bool"]
+        c = ("pl", self.r.choice(bs), "bool") if bs else ("lit", "1 < 2", "bool")
+        p = self.place(env, full, "q", True) if self.r.random() < 0.6 else None
+
+        def arm(d):
+            r = self.r.random()
+            if d < 2 and r < 0.2:
+                bs2 = [n for n, t in env.items() if t == "bool"]
+                c2 = ("pl", self.r.choice(bs2), "bool") if bs2 else ("lit", "2 < 3", "bool")
+                return ("ifx", c2, arm(d + 1), arm(d + 1))
+            if p and self.r.random() > self.naughty:
+                return ("pl", p, "q") if r < 0.6 else ("call", "thru", [("pl", p, "q")])
+            if p is None or self.r.random() < 0.5:
+                return ("new",) if r < 0.6 else ("call", "thru", [("new",)])
+            q = self.pick_any(env, "q")
+            return ("pl", q, "q") if q else ("new",)
+        e = ("ifx", c, arm(depth), arm(depth))
+        if p:
+            self.consume(full, p, "q")
+        return e
+
     def value(self, env, full, ty):
         """an expression of type ty; consumes what it moves"""
         r = self.r.random()
+        if ty == "q" and self.r.random() < 0.1:
+            return self.cond_value(env, full)
         if ty == "q":
             if r < 0.45:
                 return ("new",)
@@ -281,6 +311,21 @@ class Gen:
 
     def simple(self, env, full, in_loop_pre):
         """one simple statement, updating env/full"""
+        if self.r.random() < 0.04:      # a conditional expression directly as an argument
+            e = self.cond_value(env, full)
+            r0 = self.r.random()
+            if r0 < 0.25:               # only lent: the temporary's qubit is lost after the call
+                return ("expr", ("call", self.r.choice(["h", "bor"]), [e]))
+            if r0 < 0.35:
+                a = self.place(env, full, "q", False)
+                if a:
+                    return ("expr", ("call", "bor_own", [("pl", a, "q"), e]))
+            if r0 < 0.5:
+                v = self.fresh_var(env, "bool", in_loop_pre)
+                if v:
+                    env[v] = "bool"
+                    return ("assign", [(v, "bool")], ("call", "measure", [e]))
+            return ("expr", ("call", self.r.choice(["own", "discard", "measure"]), [e]))
         if self.profile == "places" and self.r.random() < 0.5:
             st = self.places_stmt(env, full, in_loop_pre)
             if st:
